@@ -63,6 +63,7 @@ def generate(rng, tier):
     for _ in range(36 if quick else 1000):
         cases.append(gen_http(rng))
     cases += gen_framing(rng, None)           # the whole (role x payload) grid: ~200 cases, well under a second
+    cases += recycled_number_cases()
     for ak in ROUND2_KINDS:
         for late in (8, 14, 20):
             for can_kind in ('get', 'web404', 'post_split'):
@@ -71,6 +72,28 @@ def generate(rng, tier):
                     continue
                 cases.append(dict(kind='http', convs=convs, adv=ak))
     return cases
+
+
+def recycled_number_cases():
+    """work 11 stops reporting descriptor 111 (it closed it) but lingers; the kernel hands the number 111 to the next
+    accepted connection: Threadless never unregistered the stale key, register() raises KeyError (logged), work 111 is
+    not polled until work 11 goes away.  This is the documented TODO of _update_work_events; no handler shipped with
+    proxy.py closes a descriptor while it lingers, so it is latent on the original tree — the model reproduces it."""
+    out = []
+    for remote in (False, True):
+        for linger in (2, 5):
+            a = dict(id=11, get=[{'ev': [[11, 1], [111, 1]]}] + [{'ev': [[11, 1]]}] * (linger + 4), handle=[{'ret': False}] * linger + [{'ret': True}], inactive=[])
+            b = dict(id=111, get=[{'ev': [[111, 1]]}] * 8, handle=[{'ret': False}, {'ret': True}], inactive=[])
+            wq = [[X.WQ_FD, 1]] if remote else []
+            evs = [dict(ready=list(wq), arrival=a, fin=[11, 111], clock=100),
+                   dict(ready=[[11, 1]], fin=[11, 111], clock=103),
+                   dict(ready=list(wq), arrival=b, fin=[11, 111], clock=106)]
+            for k in range(linger + 4):
+                evs.append(dict(ready=[[111, 1], [11, 1]], fin=[11, 111], clock=109 + 3 * k))
+            evs.append(dict(ready=[], fin=[11, 111], clock=200))
+            out.append(dict(kind='sched', remote=remote, tick_limit=39, events=evs, ids=[11, 111], adversarial=[11],
+                            origin='gen: descriptor number recycled while a stale registration lingers'))
+    return out
 
 
 def make_canary_case(rng, c):
@@ -116,7 +139,8 @@ def restrict_case(case, wid):
 ADVERSARIAL_KINDS = ['badutf8', 'garbage', 'truncated', 'client_reset', 'refused', 'gaierror', 'timeout', 'upstream_reset',
                      'upstream_garbage', 'client_pipe', 'client_oserror', 'eof_now', 'connect_refused', 'two_origins',
                      'reverse_second', 'huge_header', 'bad_chunk', 'tunnel_abort', 'nul_host', 'upstream_send_err',
-                     'pending_output_teardown', 'lingering_after_upstream_close', 'reverse_short_writes', 'reverse_upstream_never_reads']
+                     'pending_output_teardown', 'lingering_after_upstream_close', 'reverse_short_writes', 'reverse_upstream_never_reads',
+                     'plugin_rejects_after_connect', 'plugin_raises_after_connect']
 # multi-step scenarios that are always part of the run (several variants each): the canary arrives AFTER the adversarial
 # connection reached its bad state, on the descriptor number the kernel would recycle
 ROUND2_KINDS = ['pending_output_teardown', 'lingering_after_upstream_close', 'reverse_short_writes', 'reverse_upstream_never_reads']
@@ -197,13 +221,17 @@ def adversarial_conv(rng, kind, name, arrive):
         return dict(base, client=[b'GET http://\x00\xff/ HTTP/1.1\r\nHost: \x00\r\n\r\n'], upstreams=[dict(respond=ok_resp)])
     if kind == 'upstream_send_err':
         return dict(base, client=[req], upstreams=[dict(send=[rng.choice(['pipe', 'oserror', 'reset'])], respond=ok_resp)])
+    if kind in ('plugin_rejects_after_connect', 'plugin_raises_after_connect'):
+        path = b'/reject-after-connect' if kind == 'plugin_rejects_after_connect' else b'/boom-after-connect'
+        return dict(base, client=[b'GET http://adv.test' + path + b' HTTP/1.1\r\nHost: adv.test\r\n\r\n'] + rng.choice([[], ['EOF'], [b'more']]),
+                    upstreams=[dict(respond=ok_resp)])
     big = b'HTTP/1.1 200 OK\r\nContent-Length: 60000\r\n\r\n' + b'z' * 20000
     if kind == 'pending_output_teardown':
         # output is queued for a client that never reads, then the connection is torn down irregularly
         trigger = rng.choice([b'GET http://adv.test/y HTTP/1.1\r\nHost: adv.test\r\nContent-Length: zz\r\n\r\n',
                               b'POST http://adv.test/y HTTP/1.1\r\nHost: adv.test\r\nTransfer-Encoding: chunked\r\n\r\nzz\r\n',
                               b'\xff\xfe garbage after the first request \r\n\r\n'])
-        return dict(base, client=[req, trigger], client_send=[rng.choice([1, 100, 4000])], client_never_reads=True,
+        return dict(base, client=[req, ['at', 7, trigger]], client_send=[rng.choice([1, 100, 4000])], client_never_reads=True,
                     upstreams=[dict(respond=[big, b'z' * 20000, b'z' * 20000])])
     if kind == 'lingering_after_upstream_close':
         # the upstream is done (EOF / reset) while output is still queued for a slow client: the work lingers
@@ -309,8 +337,28 @@ HTTP_OPTS = dict(args=['--enable-web-server', '--enable-reverse-proxy'])
 
 
 def http_opts():
-    klass = rev_plugin()
-    return dict(HTTP_OPTS, plugins=[klass])
+    return dict(HTTP_OPTS, plugins=[rev_plugin(), reject_plugin()])
+
+
+_REJ = None
+def reject_plugin():
+    """a proxy plugin that refuses a request AFTER the upstream connection was established (handle_client_request runs
+    after connect_upstream), like proxy.plugin.FilterByURLRegexPlugin does: HttpRequestRejected for paths containing
+    /reject-after-connect, a non-protocol exception for /boom-after-connect; everything else passes untouched"""
+    global _REJ
+    if _REJ is None:
+        from proxy.http.proxy import HttpProxyBasePlugin
+        from proxy.http.exception import HttpRequestRejected
+        class C05RejectAfterConnectPlugin(HttpProxyBasePlugin):
+            def handle_client_request(self, request):
+                path = request.path or b''
+                if b'/reject-after-connect' in path:
+                    raise HttpRequestRejected(status_code=403, reason=b'Forbidden by plugin')
+                if b'/boom-after-connect' in path:
+                    raise RuntimeError('plugin failed after the upstream was connected')
+                return request
+        _REJ = C05RejectAfterConnectPlugin
+    return _REJ
 
 
 _REV = None
@@ -381,6 +429,15 @@ def oracle(case, out):
     if k in ('sched', 'canary'):
         if out['status'][0] == 'crashed':
             return 'the executor loop stopped with %s' % out['status'][2]
+        # C05_bookkeeping_invariant on the implementation: at every select() and at the end the selector map and
+        # registered_events_by_work_ids describe each other (same descriptors, same masks, right owner)
+        for n, sn in enumerate(out['snaps'] + [out['final']]):
+            reg = {(wid, fd): m for wid, d in sn['registered'] for fd, m in d}
+            sel = {(data, fd): m for fd, m, data in sn['sel'] if not (case.get('remote') and fd == X.WQ_FD)}
+            if reg != sel:
+                diff = sorted(set(reg.items()) ^ set(sel.items()))[:4]
+                return ('registered_events_by_work_ids and the selector map disagree at select() #%d: %r '
+                        '((work, fd), mask) entries present on one side only' % (n, diff))
         if k == 'canary':
             for wid in case['ids']:
                 if wid in case['adversarial']:
